@@ -9,10 +9,11 @@ CONSTANTS
     Base = 420
     SpanLens <- MCSpanLensThorough
     DBRPs = {"db.rp", "db.rp2", "other.rp"}
-    SourceLists <- MCSourceLists
+    ChildLists <- MCChildLists
     WrapUser = TRUE
     TruncNext = TRUE
     CloneSharesGB = TRUE
+    FluxEndsCollection = FALSE
 INVARIANTS
     TypeOK
     RangeIsExact
